@@ -3,6 +3,7 @@
 import importlib, json, os, sys
 VERIF = os.path.dirname(os.path.dirname(os.path.abspath(__file__)))
 sys.path.insert(0, VERIF)
+sys.path.insert(0, os.path.join(VERIF, "tools"))
 props = [json.loads(l) for l in open(os.path.join(VERIF, "properties.jsonl"))]
 checks, na = [], []
 for p in props:
@@ -13,7 +14,12 @@ for p in props:
         na.append({"property_id": pid, "reason": "check not built yet in this round (runtime monitors designed in DESIGN.md section 4/%s); not claimed until its monitors run silently on the unchanged tree" % pid})
         continue
     mod = importlib.import_module("vmon.props." + pid.lower())
-    meta = getattr(mod, "MANIFEST", {})
+    from manifest_texts import T
+    meta = dict(getattr(mod, "MANIFEST", {}))
+    if pid in T:
+        meta.setdefault("text", T[pid][0] + " Exploration level: a clean run is not a proof.")
+        meta.setdefault("note", "Trusted: numpy/scipy/pandas as libraries; vmon/oracles reference code; " + T[pid][1])
+        meta.setdefault("technique", T[pid][2])
     checks.append({
         "property_id": pid,
         "quick_cmd": "./check %s --tier quick" % pid,
